@@ -406,6 +406,24 @@ func c20CheckPools(c C20Pools) *pbt.Violation {
 			for it := 0; it < c.Iters; it++ {
 				size := c.Sizes[(g+it)%len(c.Sizes)]
 				payload := bytes.Repeat([]byte{byte(g), byte(it), byte(g ^ 0x5a)}, size/3+1)[:size]
+				// --- a frame that arrives cut short (a peer that hung up): the error path hands its pooled
+				// buffers back, too - exactly once
+				if (g+it)%2 == 0 {
+					var cutBuf bytes.Buffer
+					thr := c.Threshold
+					if thr < 0 {
+						thr = 0
+					}
+					fp := pk.Packet{ID: int32(g), Data: payload}
+					if err := fp.Pack(&cutBuf, thr); err == nil && cutBuf.Len() > 3 {
+						var q pk.Packet
+						cut := 2 + (g*7+it*13)%(cutBuf.Len()-2)
+						if err := q.UnPack(bytes.NewReader(cutBuf.Bytes()[:cut]), thr); err == nil {
+							errs <- fmt.Sprintf("goroutine %d: UnPack of a frame cut after %d of %d bytes succeeded", g, cut, cutBuf.Len())
+							return
+						}
+					}
+				}
 				// --- packets through the shared buffer / zlib pools
 				var buf bytes.Buffer
 				for k := 0; k < 3; k++ {
